@@ -61,6 +61,7 @@ def mc_cfg_text(m):
              "  MaxRepl = %d" % m.get("MaxRepl", 0),
              "  MaxIters = %d" % m.get("MaxIters", 1),
              "  Srcs = " + _set(m.get("srcs", ["wrapper", "raw", "typed"])),
+             "  SinkKinds = " + _set(m.get("sinks", ["drop", "ext", "push", "insert", "forget"])),
              "  Forms = " + _set(m.get("forms", [])),
              "VIEW View", "ACTION_CONSTRAINT Emit",
              "INVARIANT " + " ".join(inv), "PROPERTY LeakOnlyBy", "CHECK_DEADLOCK FALSE"]
@@ -113,13 +114,15 @@ def path_of(nodes, nid):
     return p
 
 # ----------------------------------------------------------------------------------------------------
-def run_replay_shard(binp, config, cases, out, shard, nshards, nvecs, timeout=1800):
+def run_replay_shard(binp, config, cases, out, shard, nshards, nvecs, timeout=1800, faults=False):
     """run one harness shard; on a crash (signal) record the running case, skip it and rerun"""
     skip = []
     crashes = []
     for attempt in range(40):
         cmd = [binp, "replay", "--config", config, "--cases", cases, "--out", out, "--shard", "%d/%d" % (shard, nshards),
                "--nvecs", str(nvecs)]
+        if faults:
+            cmd.append("--faults")
         if skip:
             cmd += ["--skip", ",".join(map(str, skip))]
         try:
@@ -136,7 +139,8 @@ def run_replay_shard(binp, config, cases, out, shard, nshards, nvecs, timeout=18
         if r.returncode == 0 and last.startswith("DONE"):
             _, n, nondet = last.split()
             nd = [tuple(map(int, l.split()[1:3])) for l in lines if l.startswith("NONDET")]
-            return {"file": out, "nodes": int(n), "nondet": nd, "crashes": crashes, "log": r.stdout[-2000:]}
+            fr = [int(l.split()[1]) for l in lines if l.startswith("FAULTS")]
+            return {"file": out, "nodes": int(n), "nondet": nd, "crashes": crashes, "log": r.stdout[-2000:], "fault_runs": sum(fr)}
         if r.returncode == 3:
             raise ToolError("harness driver error: " + r.stdout[-2000:])
         # crashed (signal / abort): the last marker names the running case
@@ -187,13 +191,13 @@ def validate_shard(trace_file, nvecs, expect_nodes, timeout=1800):
         raise ToolError("TLC consumed %d of %d trace nodes in %s" % (distinct - 1, expect_nodes, trace_file))
     return viols, distinct
 
-def campaign(binp, config, cases, tag, nvecs=2, nshards=8, keep=False):
+def campaign(binp, config, cases, tag, nvecs=2, nshards=8, keep=False, faults=False):
     """replay all cases of a trie on one (binary, config) and validate; returns dict with violations"""
     os.makedirs(WORK, exist_ok=True)
     outs = [os.path.join(WORK, "ev-%s.%d" % (tag, i)) for i in range(nshards)]
     t0 = time.time()
     with ThreadPoolExecutor(max_workers=nshards) as ex:
-        reps = list(ex.map(lambda i: run_replay_shard(binp, config, cases, outs[i], i, nshards, nvecs), range(nshards)))
+        reps = list(ex.map(lambda i: run_replay_shard(binp, config, cases, outs[i], i, nshards, nvecs, faults=faults), range(nshards)))
     t1 = time.time()
     with ThreadPoolExecutor(max_workers=nshards) as ex:
         vals = list(ex.map(lambda i: validate_shard(outs[i], nvecs, reps[i]["nodes"]), range(nshards)))
@@ -229,4 +233,5 @@ def campaign(binp, config, cases, tag, nvecs=2, nshards=8, keep=False):
                 try: os.remove(f)
                 except FileNotFoundError: pass
     return {"viols": viols, "crashes": crashes, "nondet": nondet, "events": events, "header": header,
+            "fault_runs": sum(r.get("fault_runs", 0) for r in reps),
             "nodes": total_nodes, "t_replay": round(t1 - t0, 1), "t_validate": round(t2 - t1, 1)}
